@@ -56,6 +56,7 @@ mod hooks;
 mod metrics;
 pub mod reexports;
 
+#[cfg(not(deadpool_verif))]
 use std::{
     collections::VecDeque,
     fmt,
@@ -68,12 +69,32 @@ use std::{
     },
     time::Duration,
 };
+#[cfg(deadpool_verif)]
+use std::{
+    collections::VecDeque,
+    fmt,
+    future::Future,
+    marker::PhantomData,
+    ops::{Deref, DerefMut},
+    sync::{
+        atomic::{AtomicUsize, Ordering},
+        Arc, Weak,
+    },
+    time::Duration,
+};
 
 #[cfg(not(target_arch = "wasm32"))]
 use std::time::Instant;
 
 use deadpool_runtime::Runtime;
+#[cfg(not(deadpool_verif))]
 use tokio::sync::{Semaphore, TryAcquireError};
+
+// verification builds: the lock and the semaphores are the instrumented ones
+#[cfg(deadpool_verif)]
+use crate::verif::{Mutex, Semaphore};
+#[cfg(deadpool_verif)]
+use tokio::sync::TryAcquireError;
 
 pub use crate::Status;
 
@@ -657,10 +678,10 @@ impl<M: Manager, W: From<Object<M>>> Pool<M, W> {
     /// Snapshot of the internal counters (verification builds only).
     #[cfg(deadpool_verif)]
     pub fn verif_snapshot(&self) -> crate::verif::ManagedSnapshot {
-        let slots = self.inner.slots.lock().unwrap();
+        let slots = self.inner.slots.raw_lock();
         crate::verif::ManagedSnapshot {
-            permits: self.inner.semaphore.available_permits(),
-            closed: self.inner.semaphore.is_closed(),
+            permits: self.inner.semaphore.raw().available_permits(),
+            closed: self.inner.semaphore.raw().is_closed(),
             size: slots.size,
             max_size: slots.max_size,
             idle_len: slots.vec.len(),
@@ -672,7 +693,7 @@ impl<M: Manager, W: From<Object<M>>> Pool<M, W> {
     /// Visits the idle objects in queue order (verification builds only).
     #[cfg(deadpool_verif)]
     pub fn verif_visit_idle(&self, mut f: impl FnMut(&M::Type, &Metrics)) {
-        let slots = self.inner.slots.lock().unwrap();
+        let slots = self.inner.slots.raw_lock();
         for obj in slots.vec.iter() {
             f(&obj.obj, &obj.metrics);
         }
